@@ -51,6 +51,10 @@ pub struct VarDesc {
     pub style:    usize,
     /// where written values come from: 0 calldata, 1 TIMESTAMP, 2 NUMBER, 3 CALLER, 4 CALLVALUE
     pub src:      usize,
+    /// packed writes move the value into place by multiplying with 2^offset instead of shifting left
+    pub wmul:     bool,
+    /// packed, read and written: the topmost field is only ever written
+    pub top_w:    bool,
 }
 
 impl VarDesc {
@@ -65,6 +69,8 @@ impl VarDesc {
             "access": self.access,
             "style": self.style,
             "src": self.src,
+            "wmul": self.wmul,
+            "top_w": self.top_w,
         })
     }
 
@@ -92,6 +98,9 @@ impl VarDesc {
             access: v["access"].as_str().unwrap_or("rw").to_string(),
             style: v["style"].as_u64().unwrap_or(0) as usize,
             src: v["src"].as_u64().unwrap_or(0) as usize,
+            wmul: v["wmul"].as_bool().unwrap_or(false),
+            // only meaningful for a variable that is both read and written
+            top_w: v["top_w"].as_bool().unwrap_or(false) && v["access"].as_str().unwrap_or("rw") == "rw",
         })
     }
 }
@@ -186,7 +195,10 @@ fn read_code(v: &VarDesc) -> Vec<Vec<Item>> {
     let mut out = Vec::new();
     match v.kind {
         Kind::Packed => {
-            for (off, w) in &v.fields {
+            for (i, (off, w)) in v.fields.iter().enumerate() {
+                if v.top_w && v.fields.len() > 1 && i + 1 == v.fields.len() {
+                    continue;
+                }
                 let mut c = vec![push_word(&v.slot, v.width), Item::Op(SLOAD)];
                 if *off > 0 {
                     c.extend(shift_by(*off, v.style, SHR));
@@ -224,7 +236,15 @@ fn write_code(v: &VarDesc) -> Vec<Vec<Item>> {
                 c.extend([push_word(&shifted_inverse(*w, *off), 32), Item::Op(AND)]);
                 c.extend(value_source(v.src, 4));
                 c.extend([push_word(&mask_bits(*w), 0), Item::Op(AND)]);
-                if *off > 0 {
+                if *off > 0 && v.wmul {
+                    let mut pow = [0u8; 32];
+                    pow[31 - off / 8] = 1 << (off % 8);
+                    c.push(push_word(&pow, 0));
+                    if v.style & 1 == 1 {
+                        c.push(Item::Op(0x90));
+                    }
+                    c.push(Item::Op(0x02));
+                } else if *off > 0 {
                     c.extend(shift_by(*off, v.style, SHL));
                 }
                 c.push(Item::Op(OR));
@@ -247,6 +267,18 @@ fn write_code(v: &VarDesc) -> Vec<Vec<Item>> {
 
 /// dispatcher(branches): one JUMPI per branch on calldata word 0, each branch ends in STOP.
 pub fn compile(vars: &[VarDesc]) -> Vec<u8> {
+    compile_shaped(vars, 0)
+}
+
+/// The same accesses under another control-flow shape: 0 the dispatcher above; 1 straight-line code (every
+/// access on one path); 2 a chain of guards `if (c_i) { access_i }` (accesses of several variables share
+/// paths; used for at most 5 accesses, as the number of paths doubles with each).
+/// The number of accesses (dispatch branches) a description compiles to.
+pub fn branch_count(vars: &[VarDesc]) -> usize {
+    vars.iter().map(|v| (if v.access.contains('r') { read_code(v).len() } else { 0 }) + (if v.access.contains('w') { write_code(v).len() } else { 0 })).sum()
+}
+
+pub fn compile_shaped(vars: &[VarDesc], shape: usize) -> Vec<u8> {
     let mut branches: Vec<Vec<Item>> = Vec::new();
     for v in vars {
         if v.access.contains('r') {
@@ -257,6 +289,24 @@ pub fn compile(vars: &[VarDesc]) -> Vec<u8> {
         }
     }
     let mut items = Vec::new();
+    if shape == 1 {
+        for b in branches {
+            items.extend(b);
+        }
+        items.push(Item::Op(STOP));
+        return assemble(&items);
+    }
+    if shape == 2 && branches.len() <= 5 {
+        for (i, b) in branches.into_iter().enumerate() {
+            items.extend([p1(0xe0), Item::Op(CALLDATALOAD), Item::Push(vec![(i >> 8) as u8, i as u8]), Item::Op(EQ)]);
+            items.push(Item::PushLabel { label: i, width: 2, high: 0, delta: 0 });
+            items.push(Item::Op(JUMPI));
+            items.extend(b);
+            items.push(Item::Label(i));
+        }
+        items.push(Item::Op(STOP));
+        return assemble(&items);
+    }
     for (i, _) in branches.iter().enumerate() {
         items.extend([p1(0), Item::Op(CALLDATALOAD), Item::Push(vec![(i >> 8) as u8, i as u8]), Item::Op(EQ)]);
         items.push(Item::PushLabel {
@@ -292,6 +342,16 @@ fn random_slot(rng: &mut StdRng, used: &mut Vec<[u8; 32]>) -> [u8; 32] {
                 let mut s = [0u8; 32];
                 s[15] = 1; // 2^128
                 s[31] = rng.gen();
+                s
+            }
+            8 if rng.gen_bool(0.5) => {
+                // a slot named by a short printable string, left-aligned in the word
+                let mut s = [0u8; 32];
+                let name = *[&b"balances"[..], b"owner", b"total.supply", b"eternal.storage.balance.of.user."].choose(rng).unwrap();
+                s[..name.len()].copy_from_slice(name);
+                if name.len() < 32 && rng.gen_bool(0.5) {
+                    s[name.len()] = b'0' + rng.gen_range(0..10u8);
+                }
                 s
             }
             8 => {
@@ -333,6 +393,12 @@ fn random_fields(rng: &mut StdRng) -> Vec<(usize, usize)> {
 }
 
 pub fn random_var(rng: &mut StdRng, used: &mut Vec<[u8; 32]>) -> VarDesc {
+    let mut v = random_var_raw(rng, used);
+    v.top_w = v.top_w && v.access == "rw";
+    v
+}
+
+fn random_var_raw(rng: &mut StdRng, used: &mut Vec<[u8; 32]>) -> VarDesc {
     let kind = match rng.gen_range(0..10) {
         0..=1 => Kind::Word,
         2..=3 => Kind::Addr,
@@ -350,6 +416,8 @@ pub fn random_var(rng: &mut StdRng, used: &mut Vec<[u8; 32]>) -> VarDesc {
         access: (*["r", "w", "rw", "rw"].choose(rng).unwrap()).to_string(),
         style: rng.gen_range(0..4),
         src: *[0usize, 0, 0, 1, 2, 3, 4].choose(rng).unwrap(),
+        wmul: kind == Kind::Packed && rng.gen_bool(0.4),
+        top_w: kind == Kind::Packed && rng.gen_bool(0.25),
         kind,
     }
 }
